@@ -18,13 +18,18 @@ import contextlib
 import copy
 import io
 import json
+import os
 import random
 import warnings
 from concurrent.futures import ThreadPoolExecutor
 
-import numpy as np
+# many small SVDs: BLAS threads only fight each other (and the TLC JVMs) for the cores
+for _v in ("OMP_NUM_THREADS", "OPENBLAS_NUM_THREADS", "MKL_NUM_THREADS"):
+    os.environ.setdefault(_v, "1")
 
-from vkit import tlc, tracecheck
+import numpy as np  # noqa: E402
+
+from vkit import tlc, tracecheck  # noqa: E402
 
 TRACE = ("trace/CountingTrace.tla", "trace/CountingTrace.cfg")
 
@@ -347,6 +352,38 @@ def numeric_svd(ctx, rnd, nrnd, n):
             if ok and not p_same(out, S, 1e-9):
                 ctx.violation("svd:rank-k-identity", f"svd_denoise_npx of a rank-{k} {nc}x{ns} matrix at rank {k} changes its input by "
                               f"{np.max(np.abs(out - S)):.3g}", {"kind": "svd"})
+    # ranks 1..full on data of exactly that rank, over the channel counts of the layouts of the quantifier (1-4 columns x 4-40
+    # rows): the per-collection rank handed to the truncated SVD must not fall below the rank asked for
+    ncs = sorted({c * r for c in (1, 2, 3, 4) for r in range(4, 41)})
+    if n < 100:
+        ncs = [nc for nc in ncs if nc <= 64] + rnd.sample([nc for nc in ncs if nc > 64], 6)
+    for nc in ncs:
+        ks = range(1, nc + 1) if nc <= 64 or n >= 100 else sorted(rnd.sample(range(1, nc + 1), 24))
+        ns = nc + 6
+        A, B = nrnd.standard_normal((nc, nc)), nrnd.standard_normal((nc, ns))
+        for k in ks:
+            S = A[:, :k] @ B[:k, :]
+            ok, out = real(ctx, "svd:rank-k-identity", f"svd_denoise_npx({nc}x{ns}, rank={k})", {"kind": "svd"}, voltage.svd_denoise_npx, S.copy(), rank=k)
+            done += 1
+            if ok and not p_same(out, S, 1e-8):
+                ctx.violation("svd:rank-k-identity", f"svd_denoise_npx of a rank-{k} {nc}x{ns} matrix at rank {k} changes its input by "
+                              f"{np.max(np.abs(out - S)):.3g}", {"kind": "svd"})
+        # collections (shanks): each block of channels has exactly the share of the rank that its size gives it (integer arithmetic)
+        for ng in (2, 3, 4):
+            if nc % ng or nc // ng < 4:
+                continue
+            coll = np.repeat(np.arange(ng), nc // ng)
+            for k in sorted(set(rnd.sample(range(ng, nc + 1), min(12, nc + 1 - ng)))):
+                kb = (k * (nc // ng)) // nc
+                if kb < 1:
+                    continue
+                S = np.concatenate([nrnd.standard_normal((nc // ng, kb)) @ nrnd.standard_normal((kb, ns)) for _ in range(ng)])
+                ok, out = real(ctx, "svd:rank-k-identity", f"svd_denoise_npx({nc}x{ns}, rank={k}, {ng} collections)", {"kind": "svd"},
+                               voltage.svd_denoise_npx, S.copy(), rank=k, collection=coll)
+                done += 1
+                if ok and not p_same(out, S, 1e-8):
+                    ctx.violation("svd:rank-k-identity", f"svd_denoise_npx of {ng} collections of rank {kb} ({nc}x{ns}) at rank {k} changes its "
+                                  f"input by {np.max(np.abs(out - S)):.3g}", {"kind": "svd"})
     ctx.count(done)
     return done
 
